@@ -160,3 +160,24 @@ Proof.
     rewrite splice_firstn by lia. reflexivity. }
   rewrite Hby. rewrite (Hz Hb). reflexivity.
 Qed.
+
+(* ---------- the regenerated magic table against CPython's release history ---------- *)
+(* first and last magic number of every Python 3 release series and the last of 2.7 (CPython,
+   Lib/importlib/_bootstrap_external.py), with the header length of that release; written down here
+   independently of the tool's table *)
+Definition release_magics : list (N * (N * N * nat)) :=
+  [(62211, (2, 7, 8%nat)); (3131, (3, 0, 8%nat)); (3151, (3, 1, 8%nat)); (3180, (3, 2, 8%nat)); (3190, (3, 3, 12%nat)); (3230, (3, 3, 12%nat));
+   (3250, (3, 4, 12%nat)); (3310, (3, 4, 12%nat)); (3320, (3, 5, 12%nat)); (3350, (3, 5, 12%nat)); (3351, (3, 5, 12%nat));
+   (3360, (3, 6, 12%nat)); (3379, (3, 6, 12%nat)); (3390, (3, 7, 16%nat)); (3394, (3, 7, 16%nat)); (3400, (3, 8, 16%nat)); (3413, (3, 8, 16%nat));
+   (3420, (3, 9, 16%nat)); (3425, (3, 9, 16%nat)); (3430, (3, 10, 16%nat)); (3439, (3, 10, 16%nat)); (3450, (3, 11, 16%nat)); (3495, (3, 11, 16%nat));
+   (3500, (3, 12, 16%nat)); (3531, (3, 12, 16%nat)); (3550, (3, 13, 16%nat)); (3571, (3, 13, 16%nat)); (3600, (3, 14, 16%nat)); (3627, (3, 14, 16%nat))].
+
+Definition release_row_ok (r : N * (N * N * nat)) : bool :=
+  let '(m, (ma, mi, hl)) := r in
+  match lookup_magic m magic_table with
+  | Some ((ma', mi'), hl') => (ma' =? ma) && (mi' =? mi) && (hl' =? hl)%nat
+  | None => false
+  end.
+
+Lemma release_magics_classified : forallb release_row_ok release_magics = true.
+Proof. vm_compute. reflexivity. Qed.
